@@ -322,3 +322,31 @@ def c17(tier, seed):
                     "per_cfg": r["per_cfg"], "chordal_meta": meta, "samples": r["samples"][:1] + [lines[len(lines) // 2]], "exhaustive": False,
                     "trusted_base": ["TLC", "replayer array comparison"]}
     return res
+
+
+def c05(tier, seed):
+    res = Result("C05", tier, seed, "model_checking")
+    wd = workdir("C05")
+    mc = run_mc("Lifecycle.tla", "MC_Lifecycle.cfg", workers=4, timeout=600, coverage=False, name="MC_Lifecycle")
+    tr, cs, mt = [os.path.join(wd, "consist" + x) for x in (".ndjson", ".cases.ndjson", ".meta.json")]
+    run_vh(["consist", "--seed", seed, "--count", 150 if tier == "quick" else 4000, "--out", tr, "--cases", cs, "--meta", mt])
+    meta = json.load(open(mt))
+    v = events_with_cases(res, "C05", "Consistency.tla", "Consistency.cfg", tr, cs, "consist", "consist-replay", nshards=10)
+    lines = read_ndjson(tr)
+    kinds = {}
+    for e in lines:
+        kinds[e.get("kind")] = kinds.get(e.get("kind"), 0) + 1
+    if meta["compared"] < 0.8 * max(1, meta["pairs"]):
+        raise ToolError("vacuity guard: too many pairs without a verdict on both sides")
+    res.coverage = {"states": mc["states"] + v["states"], "transitions": mc["transitions"] + v["transitions"],
+                    "traces_validated_against_impl": v["events"], "evaluations": v["events"], "distinct_nontrivial": meta["compared"],
+                    "rule": "one evaluation = one pair (base run, equivalent run) of the real solver: identical call, rows permuted inside cones, cones "
+                            "reordered, variables permuted, NN cones split / spelled as SOC(1)/PSD(1), P full vs triu, objective x 2^k, presolve / "
+                            "equilibration / refinement toggled, qdldl vs auto backend, max_threads, same object solved twice, instances on 4 "
+                            "concurrent threads; both runs mapped to the base formulation by the observer; TLC checks verdict class, weak duality "
+                            "across runs in both directions and bit equality where reproducibility is demanded; non-trivial = both runs ended with a verdict",
+                    "by_kind": kinds, "meta": meta, "samples": sample(lines, 3), "mc_lifecycle_states": mc["states"],
+                    "trusted_base": ["TLC", "observer (mapping back, residual slack)"]}
+    res.assumptions = ["the faer backend is not built in this sandbox configuration of the harness (qdldl/auto only)",
+                       "pairs in which one run ends without a verdict (error / limit status) are not compared"]
+    return res
